@@ -1,7 +1,7 @@
 """C14 — multi-fidelity surrogate data: each observation once, only live pending entries."""
 from .. import env
 from ..core import Result, pmap, Violation
-from ..schedx import World, explore, Oracle, RUN
+from ..schedx import World, explore, Oracle, RUN, DONE
 from ..world import table_from_perms, all_perms, rotate
 from ..refs.rungs import rung_levels
 from .c03 import RUNG_SYSTEMS
@@ -98,6 +98,8 @@ class SurrogateData(Oracle):
                 extra = sorted(set(got) - exp_levels)
                 missing = sorted(exp_levels - set(got))
                 kind = "extra" if extra else "missing"
+                if extra and not missing and extra == [self.latest.get(t)] and world.status.get(t) == DONE:
+                    kind = "extra:final-result-of-a-completed-trial"   # on_trial_complete hands the last result to the searcher
                 v.append((f"data:levels-{kind}:{cfg['data']}", f"trial {t} ({cfg['data']}): observed levels {sorted(got)}, policy selects {sorted(exp_levels)} "
                                                               f"of reported {sorted(self.first.get(t, {}))}"))
                 continue
@@ -155,7 +157,8 @@ def build_world(cfg):
         table = [[0.5 + 0.01 * x for x in row] for row in table]
     nb = 1 if cfg["sched"] == "shb" else min(cfg["brackets"], len(levels) + 1)
     mra = "epochs" if (cfg.get("use_mra") or cfg["sched"] == "shb") else None
-    spec = dict(W=cfg["W"], T=cfg["T"], R=max_t, table=table, brackets=nb if nb > 1 else 0, max_resource_attr=mra,
+    # 'script' < max_t: the training script ends by itself (the trial completes after a CONTINUE decision)
+    spec = dict(W=cfg["W"], T=cfg["T"], R=cfg.get("script", max_t), table=table, brackets=nb if nb > 1 else 0, max_resource_attr=mra,
                 scratch=cfg.get("scratch", False), rerun_eps=1e-3, fail_budget=cfg.get("F", 0))
     return World(s, spec, [SurrogateData(cfg, levels, max_t)])
 
@@ -214,6 +217,14 @@ def configs(tier, seed):
                 out.append(dict(sched="hb", type="promotion", searcher="bayesopt", data=data, myopic=myopic, brackets=3,
                                 scratch=False, mode=mode, rs="lv125m6", T=3, W=2, F=0, seed=seed, use_mra=(data == "all"),
                                 perms={"1": (1, 0, 2)}, max_states=2500 if tier == "quick" else 8000))
+    # grace period 2 and a script that ends before the first rung level: the trial completes without the searcher ever having
+    # been updated for it (its pending evaluation at the first milestone must go all the same)
+    for typ in ("stopping", "promotion"):
+        for data in ("rungs", "all"):
+            for script in (1, 3):
+                out.append(dict(sched="hb", type=typ, searcher="bayesopt", data=data, myopic=False, brackets=1, scratch=False,
+                                mode="min", rs="g2rf2m8", T=3, W=2, F=0, seed=seed, use_mra=False, perms={"2": (1, 0, 2)},
+                                script=script, max_states=1500 if tier == "quick" else 6000))
     # long single-worker histories (several promotions per trial)
     for typ in ("stopping", "promotion"):
         for data in ("rungs", "all", "rungs_and_last"):
